@@ -40,3 +40,100 @@ def status(E, name='status'):
 
 def member(E, qual, name):
     return E.member(qual, name)
+
+
+# ------------------------------------------------------------------------------------------ ConnectionBase pre-state
+
+PM = 'connection.PendingMessage'
+BF = 'connection.BitField'
+
+
+def declare_pending_message(E):
+    """field maps of PendingMessage objects held in symbolic queues"""
+    E.field(PM, 'seq', E.kind('int', SEQ))
+    E.field(PM, 'type', E.kind('enum', PTYPE))
+    E.field(PM, 'payload', E.kind('bytes'))
+    E.field(PM, 'callback', E.kind('fn'))
+    E.field(PM, 'retry', E.kind('enum', RETRY))
+    E.field(PM, 'assembled_time', E.kind('real'))
+
+
+def make_bitfield_w(E, name, W):
+    """a BitField of concrete width W in an arbitrary state satisfying its invariant (see c08_bitfield)"""
+    cur = E.int(name + '_cur', cls=SEQ, lo=0, hi=S.M)
+    raw = E.pred(name + '_bits', z3.IntSort(), z3.BoolSort())
+    ct = S.term(cur, 'int')
+    bits = E.bitset(name + '_bits', fn=lambda j: z3.And(j >= 0, j < W, ct != 0, raw(j)))
+    return E.obj(BF, tag=name, nbits=W, bits=bits, current_seqnum=cur, mask=(1 << W) - 1, onehot=1 << (W - 1))
+
+
+def make_stats(E):
+    return E.obj('connection.ConnectionStats', tag='stats',
+                 assembled=E.int('st_assembled', lo=0), sent=E.int('st_sent', lo=0), dropped=E.int('st_dropped', lo=0),
+                 received=E.int('st_received', lo=0), acked=E.int('st_acked', lo=0), timeouts=E.int('st_timeouts', lo=0),
+                 pkts_sent=nonempty(E, E.symseq('pkts_sent', E.kind('int'))), pkts_recv=nonempty(E, E.symseq('pkts_recv', E.kind('int'))),
+                 bytes_sent=nonempty(E, E.symseq('bytes_sent', E.kind('int'))), bytes_recv=nonempty(E, E.symseq('bytes_recv', E.kind('int'))),
+                 latency=E.symseq('latency_hist', E.kind('real')))
+
+
+def nonempty(E, seq):
+    E.assume(seq.n >= 1)
+    return seq
+
+
+def make_conn(E, cls=CONN, key='some', **over):
+    """a connection object in an arbitrary state (symbolic queues, tables, counters, clocks).
+    key: 'none' | 'some' (16 symbolic bytes) | 'any' (fork)"""
+    declare_pending_message(E)
+    E.alloc()
+    I, R = E.kind('int', SEQ), E.kind('real')
+    ring = lambda k: z3.And(k >= 1, k <= S.M)        # table invariant: keys are sequence numbers of the ring
+    if key == 'some':
+        skb = E.bytes('session_key', length=16)
+    elif key == 'none':
+        skb = None
+    else:
+        skb = key
+    attrs = dict(
+        log=E.member_logger(), clock=clock(E), isServer=E.bool('isServer'), addr=('10.0.0.1', 4000),
+        session_key_bytes=skb,
+        incoming_messages=E.symseq('incoming', E.kind('box')),
+        outgoing_messages=E.symseq('outgoing', E.kind('obj', PM)),
+        pending_acks=E.symmap('pending_acks', I, R, key_inv=ring),
+        pending_callbacks=E.symmap('pending_callbacks', I, E.kind('seq', inner=E.kind('fn')), with_size=False),
+        pending_fragments=E.symmap('pending_fragments', I, E.kind('box'), with_size=False),
+        received_fragments=E.symmap('received_fragments', E.kind('int'), E.kind('box'), with_size=False),
+        pending_retry=E.symmap('pending_retry', I, E.kind('seq', inner=I), with_size=False),
+        pending_retry_msg=E.symmap('pending_retry_msg', I, E.kind('obj', PM), key_inv=ring),
+        seq_sending=E.int('seq_sending', cls=SEQ, lo=0, hi=S.M), seq_message=E.int('seq_message', cls=SEQ, lo=0, hi=S.M),
+        seq_fragment=E.int('seq_fragment', cls=SEQ, lo=0, hi=S.M),
+        bitfield_pkt=make_bitfield_w(E, 'bf_pkt', 32), bitfield_msg=make_bitfield_w(E, 'bf_msg', 256),
+        outgoing_timeout=E.real('outgoing_timeout', lo=0), temp_connection_timeout=E.real('temp_connection_timeout', lo=0),
+        send_interval=E.real('send_interval', lo=0), send_keep_alive_interval=E.real('send_keep_alive_interval', lo=0),
+        latency=E.real('latency'), last_recv_time=E.real('last_recv_time'), last_send_time=E.real('last_send_time'),
+        last_send_keep_alive_time=E.real('last_send_keep_alive_time'),
+        status=status(E), stats=make_stats(E))
+    attrs.update(over)
+    return E.obj(cls, tag='self', **attrs)
+
+
+def callback_effects(ip, fn, args, kwargs):
+    """hook 'symfn': what a send callback (user function, RetrySender, fragment lambda) may do - assumption A-cb:
+    it may queue new messages (send/_send_type: outgoing_messages, seq_message, seq_fragment, stats.sent, pending_fragments)
+    and may raise any Exception; it does not touch the ack/callback/retry tables nor disconnect."""
+    from pyvc.heap import havoc_path
+    self = ip.state.ghost.get('conn')
+    if self is not None:
+        roots = {'self': self}
+        for p in ('self.outgoing_messages', 'self.seq_message', 'self.seq_fragment', 'self.stats.sent', 'self.pending_fragments'):
+            havoc_path(ip, roots, p)
+        sm = self.attrs['seq_message']
+        ip.ctx.assume(z3.And(sm.t >= 0, sm.t <= S.M))
+        sf = self.attrs['seq_fragment']
+        ip.ctx.assume(z3.And(sf.t >= 0, sf.t <= S.M))
+    if ip.ctx.choose(2) == 1:
+        ip.ctx.raise_exc('Exception', 'raised by a send callback')
+    return None
+
+
+CALLBACK_FRAME = ['self.outgoing_messages', 'self.seq_message', 'self.seq_fragment', 'self.stats.sent', 'self.pending_fragments']
